@@ -174,6 +174,14 @@ Definition writeTo (o : copts) (s : srv) (regular : bool) (off : nat) : bytes * 
   else if (length (file s) <=? maxPacket o) || negb regular then writeToSeq fuel s (maxPacket o) off []
   else writeToConc fuel writeto_fixed s (maxPacket o) off [] off.
 
+(* the same with the size that STAT / FSTAT reports as a parameter of its own: it decides only which path is taken, and a server
+   may report 0 (or anything else) for a file that has content - /proc files, generated content, a handler without sizes *)
+Definition writeToS (o : copts) (s : srv) (regular : bool) (statsize : nat) (off : nat) : bytes * option xerr * nat :=
+  let fuel := S (S (length (file s))) in
+  if negb (concReads o) then writeToSeq fuel s (maxPacket o) off []
+  else if (statsize <=? maxPacket o) || negb regular then writeToSeq fuel s (maxPacket o) off []
+  else writeToConc fuel writeto_fixed s (maxPacket o) off [] off.
+
 (* ---------- writes ---------- *)
 (* writeAt, sequential: stop at the first failing chunk *)
 Fixpoint writeSeq (cs : list (nat * nat)) (s : srv) (b : bytes) (boff : nat) (written : nat) : srv * nat * option xerr :=
@@ -250,6 +258,20 @@ Definition readFromConc (s : srv) (p : nat) (src : bytes) (off : nat) (dispatche
   match reduce_first_err errs with
   | Some (eo, e) => (s', consumed, Some e, eo)
   | None => (s', consumed, None, off + consumed)
+  end.
+
+(* the concurrency ARGUMENT of ReadFromWithConcurrency: above the client's maximum, or below `lower`, means the maximum
+   (lower = 1 is the code and its doc comment; the number of workers started is the result) *)
+Definition rfc_workers_gen (lower : Z) (arg : Z) (maxc : nat) : nat :=
+  if (Z.of_nat maxc <? arg)%Z || (arg <? lower)%Z then maxc else Z.to_nat arg.
+Definition rfc_workers := rfc_workers_gen 1%Z.
+
+(* with no worker nobody ever takes a chunk from the feeder: the call returns at once with nothing transferred and no error *)
+Definition readFromConcArg (lower arg : Z) (maxc : nat) (s : srv) (p : nat) (src : bytes) (off : nat) (dispatched : nat)
+  : srv * nat * option xerr * nat :=
+  match rfc_workers_gen lower arg maxc with
+  | O => (s, 0, None, off)
+  | S _ => readFromConc s p src off dispatched
   end.
 
 (* which path File.ReadFrom takes: remain = what the source kind reveals (None = opaque) *)
